@@ -81,6 +81,9 @@ def serve(ep, script, timeout=10.0):
         if "raw" in a:
             conn.sendall(a["raw"].encode("latin1") + b"\r\n")     # verbatim reply line (C09: replies that are not three digits)
             return True
+        if "text" in a:
+            conn.sendall(("%d " % a["code"]).encode() + a["text"].encode("latin1") + b"\r\n")       # a reply text chosen by the caller (NUL bytes ...)
+            return True
         conn.sendall(_reply(a["code"], a.get("multi", False)))
         return True
 
